@@ -259,6 +259,13 @@ func (g *gen) intTok(n int) string {
 		v = []int{math.MaxInt64, math.MinInt64, math.MaxInt64 - 1, math.MinInt64 + 1, 1 << 62, -(1 << 62), 1 << 32, -(1 << 31),
 			math.MaxInt64 - 3, math.MinInt64 + 4}[g.r.intn(10)]
 	}
+	if g.r.chance(4) {
+		// leading zeros are decimal, not octal
+		if v < 0 {
+			return "-0" + strconv.Itoa(-v)
+		}
+		return g.r.pick([]string{"0", "00"}) + strconv.Itoa(v)
+	}
 	return strconv.Itoa(v)
 }
 
